@@ -878,7 +878,19 @@ extractSHRT (
     Vec3<T>&           t,
     bool               exc /* = true */)
 {
-    return extractSHRT (mat, s, h, r, t, exc, r.order ());
+    //
+    // The Vec3 overload returns the angles in XYZ layout (the rotation
+    // about x in the first slot, and so on).  An Euler stores them in
+    // the order of its axes, so they must go in through setXYZVector()
+    // rather than be written over its raw slots.
+    //
+
+    Vec3<T> xyz;
+
+    if (!extractSHRT (mat, s, h, xyz, t, exc, r.order ())) return false;
+
+    r.setXYZVector (xyz);
+    return true;
 }
 
 template <class T>
